@@ -76,8 +76,25 @@ def binary_programs(tier, hi):
     preds = [None, ("lt", B, D), ("plit", False)]
     tops = [None] + list(OPS_TOP)
 
+    TOPS2 = (("dedup", "proj -b"), ("dedup", "proj a"), ("dedup", "proj -v"), ("proj -b", "dedup"), ("dedup", "sort total"),
+             ("sort total", "slice s:e"), ("sel a>k", "dedup"), ("dedup", "sel a>k"), ("sort total", "dedup"), ("calc e", "dedup"))
+
+    def tops2_of(node, params, cons):
+        for l1, l2 in TOPS2:
+            try:
+                for _, n2, p2 in templates.unary_sequences(node, LEAFCOLS, 1, "std", slice_hi=hi, labels=(l1,)):
+                    n2 = (n2[0], node) + tuple(_ren(x, "t") for x in n2[2:])
+                    for _, n3, p3 in templates.unary_sequences(n2, LEAFCOLS, 1, "std", slice_hi=hi, labels=(l2,)):
+                        n3 = (n3[0], n2) + tuple(_ren(x, "u") for x in n3[2:])
+                        yield (n3, {**params, **{k + "t": v for k, v in p2.params.items()}, **{k + "u": v for k, v in p3.params.items()}},
+                               cons + [[a + "t", b + "t"] for a, b in p2.cons] + [[a + "u", b + "u"] for a, b in p3.cons])
+            except IllTyped:
+                continue
+
     def tops_of(node, params, cons):
         yield node, params, cons
+        if node[1][0] == "leaf" and node[2][0] == "leaf" or (node[0] == "chain" and len(ops_of(node)) <= 2):
+            yield from tops2_of(node, params, cons)
         try:
             for labs, n2, p2 in templates.unary_sequences(node, LEAFCOLS, 1, "std", slice_hi=hi, labels=OPS_TOP):
                 n2 = (n2[0], node) + tuple(_ren(x, "t") for x in n2[2:])
